@@ -45,7 +45,7 @@ func runC19(a *Args) error {
 	}
 	n := 1200
 	if a.Tier == "thorough" {
-		n = 9000
+		n = 24000
 	}
 	base := os.TempDir()
 	if st, err := os.Stat("/dev/shm"); err == nil && st.IsDir() {
